@@ -83,7 +83,14 @@ func Generate(rng *rand.Rand, i int, thorough bool) *p2prig.Scenario {
 		}
 	case "badcheckpoint":
 		at := s.CheckpointHeights[rng.Intn(len(s.CheckpointHeights))]
-		s.Nodes = append(s.Nodes, p2prig.NodeSpec{Kind: "badcheckpoint", BadAt: int(at), MaxAccepts: 12, MaxLive: []int{1, 1, 0}[rng.Intn(3)]})
+		bad := p2prig.NodeSpec{Kind: "badcheckpoint", BadAt: int(at), MaxAccepts: 12, MaxLive: []int{1, 1, 0}[rng.Intn(3)]}
+		if rng.Intn(3) == 0 && int(at)+6 < s.HonestLen {
+			// the store is already synced PAST that checkpoint when the contradicting (taller, lighter) branch arrives
+			s.InitialStore = "prefix"
+			s.PrefixLen = int(at) + 1 + rng.Intn(s.HonestLen-int(at)-5)
+			bad.ForkLen = s.PrefixLen - int(at) + 4
+		}
+		s.Nodes = append(s.Nodes, bad)
 		if s.Engine == "legacy" && rng.Intn(3) == 0 {
 			at2 := s.CheckpointHeights[rng.Intn(len(s.CheckpointHeights))]
 			s.Nodes = append(s.Nodes, p2prig.NodeSpec{Kind: "badcheckpoint", BadAt: int(at2), MaxAccepts: 12, MaxLive: []int{1, 1, 0}[rng.Intn(3)]})
@@ -109,6 +116,8 @@ func classify(s *p2prig.Scenario) string {
 	for _, n := range s.Nodes[1:] {
 		k := n.Kind
 		switch {
+		case n.Kind == "badcheckpoint" && n.ForkLen > 0:
+			k += "(passed-checkpoint)"
 		case n.Kind == "forbidden" && n.OrphanForbidden:
 			k += "(before-parent)"
 		case n.Kind == "forbidden" && n.Cap == 1:
